@@ -1,3 +1,4 @@
 """Imports every tr_*.py module so that their translators register."""
 from . import tr_names  # noqa
 from . import tr_ops  # noqa
+from . import tr_dispatch  # noqa
